@@ -60,6 +60,9 @@ ANGLES = {
     9: """ANGLES for this round: any realistic mechanism not in the list above is welcome (an optimisation, a clean-up, a new convenience
 feature with a slip, a changed default, a cache, two cooperating sites). What matters this time is WHICH CLAUSE breaks - see the preferred
 clauses below; earlier changes have rarely or never broken them. Stay inside the stated domain.""",
+    10: """ANGLES for this round: any realistic mechanism that is not in the list above. The list is long by now - read it as a description of
+what a checker has already learned to look for, and look ELSEWHERE: a part of the code, an input feature, a combination of options or a
+sequence of calls that none of the listed changes touches. Stay inside the stated domain.""",
 }
 
 PREFERRED = {
@@ -125,7 +128,7 @@ ALREADY DONE BY OTHERS (do NOT repeat these mechanisms or close variants of them
 {chr(10).join(done)}
 
 {ANGLES[wave]}
-{("PREFERRED CLAUSES for this property: " + PREFERRED[pid]) if wave >= 9 else ""}
+{("PREFERRED CLAUSES for this property: " + PREFERRED[pid]) if wave == 9 else ""}
 
 If after a serious look none of these angles can break THIS property inside its stated domain, fall back to any other mechanism not in the list above.
 
